@@ -15,3 +15,37 @@ pub(crate) fn reader_from(entries: Vec<PostingEntry>, max_tf: f32, block_size: u
     block_size,
   }
 }
+
+/// Same, but with the per-block metadata a stored posting list carries (last doc id and
+/// maximum term frequency of every `stored_block` postings), as `PostingsReader::read_at`
+/// and the postings writer produce it.  Entries: exactly 4.
+pub(crate) fn reader_with_stored_blocks(entries: Vec<PostingEntry>, max_tf: f32, stored_block: usize) -> PostingsReader {
+  let mut block_max_doc_ids = Vec::with_capacity(4);
+  let mut block_max_tfs = Vec::with_capacity(4);
+  let mut i = 0;
+  while i < 4 {
+    let mut end = i + stored_block;
+    if end > 4 {
+      end = 4;
+    }
+    let mut tf_max = 0.0_f32;
+    let mut j = i;
+    while j < end {
+      let tf = entries[j].term_freq as f32;
+      if tf > tf_max {
+        tf_max = tf;
+      }
+      j += 1;
+    }
+    block_max_doc_ids.push(entries[end - 1].doc_id);
+    block_max_tfs.push(tf_max);
+    i = end;
+  }
+  PostingsReader {
+    data: entries,
+    max_tf,
+    block_max_doc_ids,
+    block_max_tfs,
+    block_size: stored_block,
+  }
+}
